@@ -612,6 +612,7 @@ func cmdCheck(args []string) {
 		os.WriteFile(filepath.Join(*verif, "evidence", *prop+".json"), b, 0o644)
 	}
 	if violations > 0 {
+		os.RemoveAll(scratch) // the deferred removal does not run on os.Exit
 		os.Exit(1)
 	}
 }
